@@ -24,3 +24,11 @@ package base
 // writes only the Path of the cookie it is given
 //@ func AddDbPathToCookie
 //@   modifies cookie.Path
+
+// What is handed to the bucket as document expiry: up to 30 days the whole seconds of the ttl (TRUNCATED: a ttl below one
+// second gives 0, which the bucket reads as "never expires"), beyond 30 days the absolute Unix time now+ttl.
+// 2592000000000000 = kMaxDeltaTtlDuration (30 days in ns); 1000000000 = one second.
+//@ func DurationToCbsExpiry
+//@   ensures[relative]             ttl <= 2592000000000000 ==> result == uint32(secondsOf(int64(ttl)))
+//@   ensures[positive-from-1s]     1000000000 <= ttl && ttl <= 2592000000000000 ==> result >= 1
+//@   ensures[zero-below-1s]        0 <= ttl && ttl < 1000000000 ==> result == 0
